@@ -3,17 +3,18 @@
    Language outside the modelled fragment (script expressions, variables, reservations, ...) yields
    `Unsupported`, never a made-up token. *)
 From Coq Require Import String Ascii.
-From Sakura.Model Require Import Base Cursor Length Event Song Token.
+From Sakura.Model Require Import Base Cursor Length Event Song Token Msg.
 From Sakura.Gen Require Import Consts SysFuncRows Messages VarRows.
 Open Scope Z_scope.
 
 Definition zs (s : string) : list Z := map (fun a => Z.of_N (N_of_ascii a)) (list_ascii_of_string s).
 
-(* song fields read or written at lex time *)
+(* song fields read or written at lex time; lx_ja is the message language (song.message_data, read through
+   song.get_message and never written by the lexer) *)
 Record lexstate := mkLex { lx_timebase : Z; lx_logs : list (list ch); lx_vars : list (list ch * vval);
-                           lx_rhythm : list (Z * list ch) }.
+                           lx_rhythm : list (Z * list ch); lx_ja : bool }.
 Definition lx_add_log (ls : lexstate) (m : list ch) : lexstate :=
-  if SAKURA_MAX_LOGS <=? zlen (lx_logs ls) then ls else mkLex (lx_timebase ls) (lx_logs ls ++ [m]) (lx_vars ls) (lx_rhythm ls).
+  if SAKURA_MAX_LOGS <=? zlen (lx_logs ls) then ls else mkLex (lx_timebase ls) (lx_logs ls ++ [m]) (lx_vars ls) (lx_rhythm ls) (lx_ja ls).
 (* variables_get / variables_insert on the global scope: the latest insert wins *)
 Fixpoint vars_get (name : list ch) (vars : list (list ch * vval)) : option vval :=
   match vars with
@@ -21,7 +22,7 @@ Fixpoint vars_get (name : list ch) (vars : list (list ch * vval)) : option vval 
   | (n, v) :: r => if list_eqb n name then Some v else vars_get name r
   end.
 Definition vars_insert (ls : lexstate) (name : list ch) (v : vval) : lexstate :=
-  mkLex (lx_timebase ls) (lx_logs ls) ((name, v) :: lx_vars ls) (lx_rhythm ls).
+  mkLex (lx_timebase ls) (lx_logs ls) ((name, v) :: lx_vars ls) (lx_rhythm ls) (lx_ja ls).
 (* init_variables(), from the regenerated table *)
 Definition init_vars : list (list ch * vval) :=
   map (fun r => match r with
@@ -55,17 +56,17 @@ Definition near_text_raw (s : list ch) : list ch :=
 
 (* lex_error *)
 Definition lex_error (ls : lexstate) (s : list ch) (ln : Z) (msg : list ch) : lexstate :=
-  let log := zs "[ERROR](" ++ show_int ln ++ zs ") " ++ msg_en_UnknownChar ++ zs ": """ ++ msg ++ zs """ "
-             ++ msg_en_Near ++ zs " """ ++ near_text s ++ zs """" in
+  let log := zs "[ERROR](" ++ show_int ln ++ zs ") " ++ msg_UnknownChar (lx_ja ls) ++ zs ": """ ++ msg ++ zs """ "
+             ++ msg_Near (lx_ja ls) ++ zs " """ ++ near_text s ++ zs """" in
   let n := zlen (lx_logs ls) in
   if n =? LEX_MAX_ERROR then
-    lx_add_log ls (zs "[ERROR](" ++ show_int ln ++ zs ") " ++ msg_en_TooManyErrorsInLexer)
+    lx_add_log ls (zs "[ERROR](" ++ show_int ln ++ zs ") " ++ msg_TooManyErrorsInLexer (lx_ja ls))
   else if n <? LEX_MAX_ERROR then lx_add_log ls log
   else ls.
 (* read_error_cmd *)
 Definition read_error_cmd (ls : lexstate) (s : list ch) (ln : Z) (cmd : list ch) : lexstate :=
-  lx_add_log ls (zs "[ERROR](" ++ show_int ln ++ zs ") " ++ msg_en_ScriptSyntaxError ++ zs " """ ++ cmd ++ zs """ "
-                 ++ msg_en_Near ++ zs " """ ++ near_text_raw s ++ zs """").
+  lx_add_log ls (zs "[ERROR](" ++ show_int ln ++ zs ") " ++ msg_ScriptSyntaxError (lx_ja ls) ++ zs " """ ++ cmd ++ zs """ "
+                 ++ msg_Near (lx_ja ls) ++ zs " """ ++ near_text_raw s ++ zs """").
 
 (* get_word *)
 Definition is_word_char (c : ch) : bool := is_upper c || is_lower c || (c =? 95) || is_digit c.
@@ -184,7 +185,7 @@ Definition read_args_tokens (ls : lexstate) (s : list ch) (ln : Z) : res (list (
   if paren then
     let '(s3, ln3) := skip_space s2 ln2 in
     if eq_char s3 41 then Ok (vs, tl s3, ln3, ls)
-    else Ok (vs, s3, ln3, lx_add_log ls (zs "[ERROR](" ++ show_int ln3 ++ zs ") " ++ msg_en_MissingParenthesis))
+    else Ok (vs, s3, ln3, lx_add_log ls (zs "[ERROR](" ++ show_int ln3 ++ zs ") " ++ msg_MissingParenthesis (lx_ja ls)))
   else Ok (vs, s2, ln2, ls).
 (* exec_value_int_by_token on such a token: every argument pushes its value, the last one is popped *)
 Definition last_arg (vs : list (option Z)) : Z :=
@@ -529,7 +530,7 @@ Definition read_macro_args (ls : lexstate) (s : list ch) (ln : Z) : res (list (o
   if paren then
     let '(s3, ln3) := skip_space s2 ln2 in
     if eq_char s3 41 then Ok (vs, tl s3, ln3, ls)
-    else Ok (vs, s3, ln3, lx_add_log ls (zs "[ERROR](" ++ show_int ln3 ++ zs ") " ++ msg_en_MissingParenthesis))
+    else Ok (vs, s3, ln3, lx_add_log ls (zs "[ERROR](" ++ show_int ln3 ++ zs ") " ++ msg_MissingParenthesis (lx_ja ls)))
   else Ok (vs, s2, ln2, ls).
 
 Definition is_reserved (name : list ch) : bool :=
@@ -713,8 +714,8 @@ Definition read_def_str (ls : lexstate) (s : list ch) (ln : Z) : res rd_out :=
       if is_reserved name then
         (* read_error *)
         Ok (None, s2, ln1,
-            lx_add_log ls (zs "[ERROR](" ++ show_int ln1 ++ zs ") " ++ msg_en_ErrorDefineVariableIsReserved ++ zs ": """ ++ name ++ zs """ "
-                           ++ msg_en_Near ++ zs " """ ++ near_text_raw s2 ++ zs """"))
+            lx_add_log ls (zs "[ERROR](" ++ show_int ln1 ++ zs ") " ++ msg_ErrorDefineVariableIsReserved (lx_ja ls) ++ zs ": """ ++ name ++ zs """ "
+                           ++ msg_Near (lx_ja ls) ++ zs " """ ++ near_text_raw s2 ++ zs """"))
       else
         let '(s3, ln3) := skip_space s2 ln1 in
         if eq_char s3 61 then
@@ -978,7 +979,7 @@ Fixpoint lex_f (fuel : nat) (ls : lexstate) (src : list ch) (lineno : Z) : res l
                      let t0 := aval_to_i v in
                      let t1 := if t0 <=? 48 then 48 else t0 in
                      let t2 := if t1 >? 32767 then 32767 else t1 in
-                     loop n' (mkLex t2 (lx_logs ls) (lx_vars ls) (lx_rhythm ls)) s2 ln2 harmony acc
+                     loop n' (mkLex t2 (lx_logs ls) (lx_vars ls) (lx_rhythm ls) (lx_ja ls)) s2 ln2 harmony acc
                    else if list_eqb ttype (zs "Rhythm") then
                      let '(s2, ln2) := skip_space s1 ln in
                      let '(block, s3, ln3) := get_token_nest s2 ln2 123 125 in
@@ -1054,7 +1055,7 @@ Fixpoint lex_f (fuel : nat) (ls : lexstate) (src : list ch) (lineno : Z) : res l
                  let '(s4, ln4) := skip_space s3 ln2 in
                  let '(body, s5, ln5) := get_token_nest s4 ln4 123 125 in
                  if (64 <=? mc) && (mc <=? 127) then
-                   loop n' (mkLex (lx_timebase ls) (lx_logs ls) (lx_vars ls) ((mc, body) :: lx_rhythm ls)) s5 ln5 harmony acc
+                   loop n' (mkLex (lx_timebase ls) (lx_logs ls) (lx_vars ls) ((mc, body) :: lx_rhythm ls) (lx_ja ls)) s5 ln5 harmony acc
                  else
                    loop n' (lx_add_log ls (zs "[ERROR](" ++ show_int ln5 ++ zs ") could not define Rhythm macro '" ++ [mc] ++ zs "' ")) s5 ln5 harmony acc
              end
